@@ -9,8 +9,8 @@ from C02 import setup_spec
 
 THEOREMS = 'IsoTp.Props.C04'
 RULE = ('operation histories over the alphabet {FC ContinueToSend bs=0 / bs=1 / bs=2+stmin 1 ms, FC Wait, FC Overflow, FC with reserved STmin, '
-        'garbage, process(), process(tx only), tick 0.4 ms, tick beyond N_Bs} applied from five starting states (idle, waiting for the first '
-        'Flow Control, mid-block, rate-limiter SF standby, rate-limiter FF standby): EXHAUSTIVE for all histories of length <= 3 (quick) / '
+        'garbage, process(), process(tx only), tick 0.4 ms, tick beyond N_Bs} applied from six starting states (idle, waiting for the first '
+        'Flow Control, mid-block with unlimited grant, mid-block of a granted block of 3 with STmin 5 ms, rate-limiter SF standby, rate-limiter FF standby): EXHAUSTIVE for all histories of length <= 3 (quick) / '
         '<= 4 (thorough, plus sampled length 5-7), with wftmax in {0,1,3} and a second queued message; plus long random histories. Oracle: '
         'no Consecutive Frame before the first ContinueToSend; never more Consecutive Frames than the largest block size granted since the '
         'sender last waited; data frames of each request are a prefix of the extracted Coq reference segmentation; Overflow / too many '
@@ -29,6 +29,8 @@ def start_states(inst, pfx, rid, ext):
         'idle': [],
         'wait_fc': [[0, 'send', None, big], [0, 'proc', 1, 1]],
         'mid_block': [[0, 'send', None, big], [0, 'proc', 1, 1], fc(0, 0, 5), [0, 'proc', 1, 1]],
+        # a granted block of 3 spanning several process() passes (STmin 5 ms), one Consecutive Frame already out
+        'mid_block3': [[0, 'send', None, big], [0, 'proc', 1, 1], fc(0, 3, 5), [0, 'proc', 1, 1], [0, 'tick', 5100000], [0, 'proc', 1, 1]],
     }
 
 
@@ -40,6 +42,7 @@ def letters(pfx, rid, ext, tbs_ns):
         'garb': [[0, 'rx', rid, int(ext), hx(pfx + bytes([0x3F]))], [0, 'proc', 1, 1]],
         'proc': [[0, 'proc', 1, 1]], 'ptx': [[0, 'proc', 0, 1]],
         't_small': [[0, 'tick', 400000]], 't_big': [[0, 'tick', tbs_ns + 7]],
+        'cts3s': [fc(0, 3, 5), [0, 'proc', 1, 1]], 't_st': [[0, 'tick', 5100000], [0, 'proc', 1, 1]],
         '2cts': [fc(0, 0), fc(0, 1), [0, 'proc', 1, 1]],
         'wait3': [fc(1, 0), [0, 'proc', 1, 1], fc(1, 0), [0, 'proc', 1, 1], fc(1, 0), [0, 'proc', 1, 1]],
     }
@@ -56,6 +59,8 @@ def build(inst, start, seq, L, second):
     mark = len(ops)
     # let everything terminate: idle passes with time passing, a cooperative receiver for whatever follows
     fc = [0, 'rx', rid, int(ext), hx(pfx + bytes([0x30, 0, 0]))]
+    for _ in range(6):
+        ops += [[0, 'tick', 5100000], [0, 'proc', 1, 1]]
     for _ in range(14):
         ops += [[0, 'tick', tbs + 13], [0, 'proc', 1, 1], [0, 'proc', 1, 1]]
     return {'insts': [inst], 'ops': ops, 'nops': len(ops), 'mark': mark, 'seq': list(seq)}
@@ -186,5 +191,5 @@ def run_shard(campaign, shard, nshards, seed, tier):
 def run(ctx):
     run_sharded(ctx, 'C04', 'exhaustive')
     run_sharded(ctx, 'C04', 'random')
-    ctx.exhaustive['all flow-control histories up to length %s over the 13-letter alphabet from each starting state' % ('2' if ctx.quick else '3')] = True
+    ctx.exhaustive['all flow-control histories up to length %s over the 15-letter alphabet from each starting state' % ('2' if ctx.quick else '3')] = True
     return RULE, ASSUME
